@@ -23,7 +23,7 @@ def _one(args):
     work = os.path.join(tmp, "repo%d" % i)
     subprocess.check_call(["rsync", "-a", "--exclude", "target", "--exclude", ".git", factsmod.REPO.rstrip("/") + "/", work + "/"])
     r = subprocess.run(["git", "apply", "--whitespace=nowarn", diff], cwd=work, capture_output=True, text=True)
-    name = os.path.relpath(diff, os.path.join(VERIF, "mutants"))
+    name = os.path.relpath(diff, os.path.join(VERIF, "mutants")) if "/mutants/" in diff else os.path.relpath(diff, VERIF)
     if r.returncode != 0:
         shutil.rmtree(work, ignore_errors=True)
         return {"mutant": name, "status": "skipped", "why": "does not apply to the current tree"}
@@ -61,6 +61,8 @@ def _touched(diff):
 
 def run(prop):
     diffs = sorted(glob.glob(os.path.join(VERIF, "mutants", prop, "*.diff")))
+    # independently seeded breaking changes filed under this property (seeded/<prop>-x/patch.diff): any rule may fire
+    diffs += sorted(glob.glob(os.path.join(VERIF, "seeded", prop + "-*", "patch.diff")))
     # behaviour-preserving refactors (written independently) that touch a file this property is anchored in
     anchors = _anchor_files(prop)
     for d in sorted(glob.glob(os.path.join(VERIF, "mutants", "benign", "*.diff"))):
